@@ -279,7 +279,10 @@ CGraph::ItemsGroup CGraph::GetAllLoopsItems() const {
   std::vector<bool> marked(size(graph), false);
   std::vector<VertexIndex> toVisit{};
   std::vector<VertexIndex> component{};
-  for (const auto index : InternalOrder()) {
+  // Kosaraju: decreasing finish time over the transposed graph yields strongly connected components
+  const auto order = InternalOrder();
+  for (auto orderIt = rbegin(order); orderIt != rend(order); ++orderIt) {
+    const auto index = *orderIt;
     if (marked[index]) {
       continue;
     }
@@ -290,7 +293,7 @@ CGraph::ItemsGroup CGraph::GetAllLoopsItems() const {
       const auto item = toVisit.back();
       toVisit.pop_back();
       component.push_back(item);
-      for (const auto child : graph[item].outputs) {
+      for (const auto child : graph[item].inputs) {
         if (!marked[child]) {
           toVisit.push_back(child);
           marked[child] = true;
